@@ -54,7 +54,10 @@ RULE = ("keypair: a random history and an adversarial variant (adjacent messages
         "interleaved; conc: 2-4 concurrent single-turn requests with per-request temperature, start delay, pause and LLM latency "
         "(some LLM calls fail); ctx: 2-5 single-turn requests, some with options, as a random program of one task (sequential awaits and nested spawn groups); "
         "serve/e2e turns carry options with probability 0.15/0.3 and run inline in one driver task / in tasks spawned from it; thorough additionally enumerates every interleaving of 3 managers x (enter, call, exit) (1680) and of "
-        "the turns of two conversations for six adversarial conversation shapes. non-trivial = at least two conversations/managers/requests and (for serve/e2e) at least one "
+        "the turns of two conversations for six adversarial conversation shapes. events cases carry an explicit state object with probability 0.25 (the implicit cache must not be consulted); "
+        "params managers are parameterless with probability 0.12 and belong to tasks (interleaved: one task each; nested/sequential: one task or one each) - on a tree with the repaired LLMParams "
+        "(llm_for_call) every task runs in its own context, an LLM call is an in-flight marker section + llm_for_call + a read deferred past the next steps of other tasks; conc: the provider re-reads the "
+        "temperature at the end of the call and the observed label sequence (sections, reads) is replayed on the Lean transition system. non-trivial = at least two conversations/managers/requests and (for serve/e2e) at least one "
         "multi-message request, (keypair) the two histories differ; distinct = distinct case JSON.")
 TRUSTED_BASE = [
     "correspondence harness harness/props/C15.py + Lean driver Drive/C15.lean (JSON codecs; the turn function travels as a table observed from the stub runtime)",
@@ -112,6 +115,15 @@ def static_tie():
     if "self.events_history_cache[cache_key].copy()" not in src or "messages[0:p]" not in src:
         problems.append("_get_events_for_messages no longer looks up key(messages[0:p]) in events_history_cache")
     return problems
+
+
+def state_lookup_guarded():
+    """Does the Colang 1.0 branch of _get_events_for_messages take `state` into account (no implicit-cache lookup with a state object)?"""
+    fn = find_def(parse(RAILS), "_get_events_for_messages", "LLMRails")
+    first_if = next((n for n in fn.body if isinstance(n, ast.If)), None)
+    if first_if is None:
+        return False
+    return any(isinstance(n, ast.Name) and n.id == "state" for st in first_if.body for n in ast.walk(st))
 
 
 PER_REQUEST_VARS = ["generation_options_var", "llm_stats_var", "raw_llm_request"]
@@ -237,24 +249,31 @@ def worker_init():
 
         async def _acall(self, prompt, stop=None, run_manager=None, **kw):
             r = req_var.get()
-            self.calls.append({"req": r, "prompt": prompt, "temperature": self.temperature, "max_tokens": self.max_tokens, "opts": canon_options(context_mod.generation_options_var.get())})
+            rec = {"req": r, "prompt": prompt, "temperature": self.temperature, "max_tokens": self.max_tokens, "opts": canon_options(context_mod.generation_options_var.get())}
+            self.calls.append(rec)
+            ptrace.append(["call", r, {"temperature": self.temperature, "max_tokens": self.max_tokens}])
             d = self.lat.get(r, 0)
             if d:
                 await asyncio.sleep(d)
+            # a provider may read its attributes at any time while the call is in flight (retries, streaming): read again at the end
+            rec["temperature_end"] = self.temperature
             if self.fail.get(r):
                 raise RuntimeError("scripted LLM failure")
             return self._answer(prompt)
 
     sections = []
+    ptrace = []  # the observed label sequence of the LLMParams transition system: enter (with altered_params) / call / exit
 
     class RecordingParams(params_mod.LLMParams):
         def __enter__(self):
             sections.append(("enter", req_var.get()))
+            ptrace.append(["enter", req_var.get(), dict(self.altered_params)])
             return super().__enter__()
 
         def __exit__(self, *a):
             r = super().__exit__(*a)
             sections.append(("exit", req_var.get()))
+            ptrace.append(["exit", req_var.get(), None])
             return r
 
     params_mod.register_param_manager(PureLLM, RecordingParams)
@@ -290,11 +309,15 @@ def worker_init():
 
     key_used = getattr(rails_mod, "get_events_history_cache_key", None)
     _ENV.update(
-        LLMRails=LLMRails, RailsConfig=RailsConfig, PureLLM=PureLLM, req_var=req_var, sections=sections,
+        LLMRails=LLMRails, RailsConfig=RailsConfig, PureLLM=PureLLM, req_var=req_var, sections=sections, ptrace=ptrace,
         VirtualLoop=VirtualLoop, GenerationOptions=GenerationOptions, rails_mod=rails_mod, utils_mod=utils_mod, params_mod=params_mod,
         key_asis=utils_mod.get_history_cache_key,
         key_used=key_used or rails_mod.get_history_cache_key,
         which="lp" if key_used is not None else "asis",
+        # "repaired" = fixes/C15-llm-params-overlap.diff is in the tree (per-LLM registry of open sections + llm_for_call)
+        pmode="repaired" if hasattr(params_mod, "llm_for_call") else "asis",
+        # fixes/C15-no-cache-lookup-with-state.diff in the tree: the Colang 1.0 branch of _get_events_for_messages looks at `state`
+        statefix=state_lookup_guarded(),
     )
 
 
@@ -547,7 +570,10 @@ def g_events_case(rng):
         n += 1
         cache.append({"hist": copy.deepcopy(msgs), "ev": [["OP", n]]})  # the full request is never looked up
     rng.shuffle(cache)
-    return {"kind": "events", "msgs": msgs, "cache": cache}
+    case = {"kind": "events", "msgs": msgs, "cache": cache}
+    if rng.random() < 0.25:
+        case["state"] = True  # the request carries an explicit state object: the implicit cache must not be consulted
+    return case
 
 
 def T(*parts):
@@ -682,6 +708,8 @@ def g_params_case(rng):
     for _ in range(nm):
         pool = known if (strict and known) else names
         ks = rng.sample(pool, rng.randrange(1, min(3, len(pool)) + 1))
+        if rng.random() < 0.12:
+            ks = []  # a section without parameters (a request without options: `llm_params(llm, **{})`)
         managers.append({str(k): rng.choice([None, 10, 11, 12, 13]) for k in ks})
     mode = rng.choice(["sequential", "nested", "random", "random"])
     sched = []
@@ -704,7 +732,13 @@ def g_params_case(rng):
         while any(progs.values()):
             m = rng.choice([m for m, p in progs.items() if p])
             sched.append(progs[m].pop(0))
-    return {"kind": "params", "attrs": attrs, "kw": kw, "managers": managers, "sched": sched, "mode": mode}
+    # the task every manager belongs to (only meaningful for the repaired LLMParams, which knows the sections of the
+    # current task): interleaved managers are different tasks; nested / sequential ones are one task or different tasks
+    if mode == "random" or rng.random() < 0.5:
+        owner = list(range(nm))
+    else:
+        owner = [0] * nm
+    return {"kind": "params", "attrs": attrs, "kw": kw, "managers": managers, "sched": sched, "mode": mode, "owner": owner}
 
 
 def g_conc_case(rng):
@@ -839,10 +873,10 @@ def run_events(case):
         keys.append(kk)
         cache[kk] = [{"type": "Opaque", "n": e[1]} for e in ent["ev"]]
     stub = types.SimpleNamespace(config=types.SimpleNamespace(colang_version="1.0"), events_history_cache=cache)
-    obs = {"which": E["which"], "keys": keys, "pairs": pairs(case["msgs"])}
+    obs = {"which": E["which"], "keys": keys, "pairs": pairs(case["msgs"]), "statefix": E["statefix"]}
     obs["pkeys"] = [_key(E["key_used"], case["msgs"][:p]).get("key") for p in range(1, len(case["msgs"]))]
     try:
-        evs = E["LLMRails"]._get_events_for_messages(stub, copy.deepcopy(case["msgs"]), None)
+        evs = E["LLMRails"]._get_events_for_messages(stub, copy.deepcopy(case["msgs"]), {"events": []} if case.get("state") else None)
         obs["events"] = canon_events(evs)
     except Exception as e:  # noqa
         obs["exc"] = type(e).__name__
@@ -1010,6 +1044,63 @@ def run_convs(case):
     return {"which": E["which"], "iso": iso, "shared": shared, "final_temp": llm.temperature, "final_maxtok": llm.max_tokens}
 
 
+CONC_PARAMS = {"temperature": 0, "max_tokens": 1}
+
+
+def _pint(name, v):
+    return int(round(v * 10)) if name == "temperature" else int(v)
+
+
+def conc_trace(obs):
+    """The label sequence observed on the virtual-time loop (sections opened / closed by the real LLMParams of every request,
+    the moments the provider read the parameters) as a schedule of the Lean transition system `ParamsR.runR`: one section id per
+    `with llm_params(...)` instance (the sections of a request are sequential code: LIFO per request), owner = the request."""
+    alts, owners, trace, stack, calls = [], [], [], collections.defaultdict(list), []
+    for act, r, info in obs.get("ptrace") or []:
+        if r is None:
+            return None
+        if act == "enter":
+            if any(k not in CONC_PARAMS or v is None for k, v in info.items()):
+                return None
+            sid = len(alts)
+            alts.append([[CONC_PARAMS[k], _pint(k, v)] for k, v in info.items()])
+            owners.append(r)
+            stack[r].append(sid)
+            trace.append([sid, "enter"])
+        elif act == "exit":
+            if not stack[r]:
+                return None
+            trace.append([stack[r].pop(), "exit"])
+        else:
+            if not stack[r]:
+                return None
+            trace.append([stack[r][-1], "call"])
+            calls.append([[0, _pint("temperature", info["temperature"])], [1, _pint("max_tokens", info["max_tokens"])]])
+    if any(stack.values()):
+        return None
+    cfg = [[0, _pint("temperature", CONFIGURED_TEMP)], [1, CONFIGURED_MAX_TOKENS]]
+    return {"req": {"cfg": cfg, "alts": alts, "owners": owners, "trace": trace, "universe": [0, 1]}, "calls": calls}
+
+
+def params_owner(case):
+    return case.get("owner") or list(range(len(case["managers"])))
+
+
+def own_task_ok(case):
+    """the sections of ONE task are sequential code: properly nested among themselves, calls made by the innermost one"""
+    owner = params_owner(case)
+    stk = collections.defaultdict(list)
+    for m, act in case["sched"]:
+        st = stk[owner[m]]
+        if act == "enter":
+            st.append(m)
+        elif not st or st[-1] != m:
+            return False
+        elif act == "exit":
+            st.pop()
+    return True
+
+
 def run_params(case):
     E = _ENV
 
@@ -1031,17 +1122,92 @@ def run_params(case):
         return None  # the object does not know the parameter: a call runs without it
 
     calls = []
-    obs = {}
-    try:
-        for m, act in case["sched"]:
-            if act == "enter":
-                mgrs[m].__enter__()
-            elif act == "exit":
-                mgrs[m].__exit__(None, None, None)
-            else:
-                calls.append([m, [[int(n), seen(PNAMES[int(n)])] for n in case["managers"][m]]])
-    except Exception as e:  # noqa
-        obs["exc"] = type(e).__name__ + ": " + str(e)[:100]
+    obs = {"pmode": E["pmode"]}
+    if E["pmode"] == "repaired":
+        # every task has its own context (copied from a clean one, as asyncio tasks spawned by a server are); an LLM call
+        # is made on the object `llm_for_call` returns in the context of the calling task (what `llm_call` does)
+        owner = params_owner(case)
+        ctxs = {t: contextvars.copy_context() for t in set(owner)}
+        views = []
+
+        def view_of(obj):
+            out = []
+            for i, name in enumerate(PNAMES):
+                if hasattr(obj, name):
+                    out.append([i, getattr(obj, name)])
+                elif hasattr(obj, "model_kwargs") and name in obj.model_kwargs:
+                    out.append([i, obj.model_kwargs[name]])
+                else:
+                    out.append([i, "absent"])
+            return out
+
+        # an LLM call = what `llm_call` does: a section without parameters marks the call as in flight, the call is made
+        # on `llm_for_call(llm)`; the provider reads the parameters LATER (langchain awaits callbacks first): when every
+        # manager is a task of its own the read is deferred until just before the next step of the same task, so that
+        # steps of other tasks fall between the decision and the read (the call is in flight meanwhile)
+        pm = E["params_mod"]
+        defer = len(set(owner)) == len(owner)
+        pending = {}
+        # the label sequence really executed, for the model: section ids = managers, then one id per LLM call
+        # (the parameterless section that marks it as in flight; its "call" label is the moment the parameters are read)
+        trace, mark_owner = [], []
+        nm = len(mgrs)
+
+        def begin(m):
+            mark = pm.llm_params(llm)
+            mark.__enter__()
+            cid = nm + len(mark_owner)
+            mark_owner.append(owner[m])
+            trace.append([cid, "enter"])
+            return mark, pm.llm_for_call(llm), cid
+
+        def finish(m):
+            mark, obj, cid = pending.pop(m)
+            v = view_of(obj)
+            trace.append([cid, "call"])
+            mark.__exit__(None, None, None)
+            trace.append([cid, "exit"])
+            views[[i for i, x in enumerate(views) if x[0] == m and x[1] is None][0]][1] = v
+
+        try:
+            for m, act in case["sched"]:
+                ctx = ctxs[owner[m]]
+                if m in pending:
+                    ctx.run(finish, m)
+                if act == "enter":
+                    ctx.run(mgrs[m].__enter__)
+                    trace.append([m, "enter"])
+                elif act == "exit":
+                    ctx.run(mgrs[m].__exit__, None, None, None)
+                    trace.append([m, "exit"])
+                else:
+                    views.append([m, None])
+                    pending[m] = ctx.run(begin, m)
+                    if not defer:
+                        ctx.run(finish, m)
+            for m in list(pending):
+                ctxs[owner[m]].run(finish, m)
+        except Exception as e:  # noqa
+            obs["exc"] = type(e).__name__ + ": " + str(e)[:100]
+        for m, v in views:
+            d = dict((i, x) for i, x in (v or []))
+            calls.append([m, [[int(n), None if d.get(int(n), "absent") == "absent" else d[int(n)]] for n in case["managers"][m]]])
+        obs["views"] = views
+        obs["trace"] = trace
+        obs["section_owner"] = list(owner) + mark_owner
+        obs["registry_left"] = len(getattr(E["params_mod"], "_open_sections", {}))
+        getattr(E["params_mod"], "_open_sections", {}).clear()
+    else:
+        try:
+            for m, act in case["sched"]:
+                if act == "enter":
+                    mgrs[m].__enter__()
+                elif act == "exit":
+                    mgrs[m].__exit__(None, None, None)
+                else:
+                    calls.append([m, [[int(n), seen(PNAMES[int(n)])] for n in case["managers"][m]]])
+        except Exception as e:  # noqa
+            obs["exc"] = type(e).__name__ + ": " + str(e)[:100]
     obs["calls"] = calls
     obs["attr"] = [[i, getattr(llm, PNAMES[i]) if hasattr(llm, PNAMES[i]) else "absent"] for i in range(len(PNAMES))]
     obs["kw"] = None if not hasattr(llm, "model_kwargs") else [[i, llm.model_kwargs.get(PNAMES[i], "absent")] for i in range(len(PNAMES))]
@@ -1083,7 +1249,7 @@ def run_conc(case):
         return rails, llm
 
     def calls_of(llm, i):
-        return [{"prompt": c["prompt"], "temperature": c["temperature"]} for c in llm.calls if c["req"] == i]
+        return [{"prompt": c["prompt"], "temperature": c["temperature"], "temperature_end": c.get("temperature_end", c["temperature"])} for c in llm.calls if c["req"] == i]
 
     iso = []
     for i, r in enumerate(reqs):
@@ -1097,6 +1263,7 @@ def run_conc(case):
         iso.append({"out": out, "calls": calls_of(llm, i), "final_temp": llm.temperature})
     rails, llm = setup(range(len(reqs)))
     del E["sections"][:]
+    del E["ptrace"][:]
 
     async def together():
         tasks = [asyncio.ensure_future(one(rails, i, r)) for i, r in enumerate(reqs)]
@@ -1104,7 +1271,7 @@ def run_conc(case):
 
     outs = run_coro(together(), virtual=True)
     shared = [{"out": outs[i], "calls": calls_of(llm, i)} for i in range(len(reqs))]
-    return {"iso": iso, "shared": shared, "final_temp": llm.temperature, "sections": [list(s) for s in E["sections"]]}
+    return {"iso": iso, "shared": shared, "final_temp": llm.temperature, "sections": [list(s) for s in E["sections"]], "pmode": E["pmode"], "ptrace": copy.deepcopy(E["ptrace"])}
 
 
 def prog_ids(prog):
@@ -1144,7 +1311,7 @@ def run_ctx(case):
 
     run_coro(run_items(case["prog"]), virtual=True)
     return {"iso": iso, "shared": [out.get(i) for i in range(len(reqs))], "final": [llm.temperature, llm.max_tokens],
-            "sections": [list(x) for x in _ENV["sections"]], "own": [own_options(r["options"]) for r in reqs]}
+            "sections": [list(x) for x in _ENV["sections"]], "pmode": _ENV["pmode"], "own": [own_options(r["options"]) for r in reqs]}
 
 
 # ----------------------------------------------------------------------------- model
@@ -1199,7 +1366,8 @@ def model_requests(case, obs):
             return []
         # dict semantics: a later entry under the same key replaces the earlier one -> newest first for the model
         cache = [[kk, ent["ev"]] for kk, ent in zip(obs["keys"], case["cache"])][::-1]
-        return [{"m": "C15.events", "which": obs["which"], "msgs": obs["pairs"], "cache": cache},
+        return [{"m": "C15.events", "which": obs["which"], "msgs": obs["pairs"], "cache": cache,
+                 "state": bool(case.get("state")), "statefix": bool(obs.get("statefix"))},
                 {"m": "C15.convert", "tails": [obs["pairs"][p:] for p in range(len(obs["pairs"]))]}]
     if k == "serve":
         if any("exc" in st for steps in obs["iso"] + [obs["shared"]] for st in steps):
@@ -1213,6 +1381,24 @@ def model_requests(case, obs):
         if any(st is None for st in obs["shared"]):
             return []
         return [{"m": "C15.ctxprog", "which": "set", "prog": _prog_json(case["prog"], obs)}]
+    if k == "conc" and obs.get("pmode") == "repaired":
+        tr = conc_trace(obs)
+        return [] if tr is None else [dict(tr["req"], m="C15.paramsR")]
+    if k == "conc":
+        # the code as it is: the observed label sequence through the mirrored __enter__/__exit__ on one shared object
+        tr = conc_trace(obs)
+        if tr is None:
+            return []
+        r = tr["req"]
+        return [{"m": "C15.params", "attrs": r["cfg"], "kw": None, "managers": r["alts"], "sched": r["trace"], "universe": r["universe"]}]
+    if k == "params" and obs.get("pmode") == "repaired":
+        # the abstract transition system of the repaired LLMParams (every parameter exists on the object)
+        if "exc" in obs or not all_present(case):
+            return []
+        cfg = [[int(n), v] for n, v in case["attrs"].items()] + [[int(n), v] for n, v in (case["kw"] or {}).items()]
+        alts = [[[int(n), v] for n, v in m.items()] for m in case["managers"]] + [[] for _ in obs["section_owner"][len(case["managers"]):]]
+        return [{"m": "C15.paramsR", "cfg": cfg, "alts": alts, "owners": obs["section_owner"], "trace": obs["trace"],
+                 "universe": sorted(int(n) for n in list(case["attrs"]) + list(case["kw"] or {}))}]
     if k == "params":
         if "exc" in obs:
             return []
@@ -1289,6 +1475,47 @@ def compare(case, obs, mouts):
             if got != exp.get(i, []):
                 return f"request {i}: generation options seen by its LLM calls {got} (index of the owning request), model of the prologue says {exp.get(i, [])}"
         return None
+    if k == "conc" and obs.get("pmode") == "repaired":
+        if not mouts:
+            return None
+        tr, m = conc_trace(obs), mouts[0]
+        mcalls = [v for _, v in m["calls"]]
+        if mcalls != tr["calls"]:
+            return f"observed schedule {tr['req']['trace']}: parameters read by the LLM calls {tr['calls']}, transition system {mcalls}"
+        if m["open"] or m["store"] != tr["req"]["cfg"]:
+            return f"observed schedule: transition system ends with open sections {m['open']} / object {m['store']}"
+        return None
+    if k == "conc":
+        if not mouts:
+            return None
+        tr, m = conc_trace(obs), mouts[0]
+        # every provider read, in order: the values of the parameters the reading section set (what `Params.cstep` logs)
+        exp = []
+        for (sid, act), vals in zip([x for x in tr["req"]["trace"] if x[1] == "call"], tr["calls"]):
+            d = dict((i, v) for i, v in vals)
+            exp.append([sid, [[n, d[n]] for n, _ in tr["req"]["alts"][sid]]])
+        if m["calls"] != exp:
+            return f"observed schedule {tr['req']['trace']}: parameters read by the LLM calls {exp}, model of LLMParams on the same schedule {m['calls']}"
+        fin = [[0, _pint("temperature", obs["final_temp"])]]
+        if [x for x in m["attr"] if x[0] == 0] != fin:
+            return f"observed schedule: temperature left on the object {fin}, model {m['attr']}"
+        return None
+    if k == "params" and obs.get("pmode") == "repaired":
+        if not mouts:
+            return None
+        m = mouts[0]
+        uni = [i for i, _ in m["store"]]
+        got_views = [[[i, x] for i, x in v if i in uni] for _, v in obs["views"]]
+        mviews = [v for _, v in sorted(m["calls"], key=lambda c: c[0])]  # marker ids are numbered in the order the calls began
+        if mviews != got_views:
+            return f"parameter values the LLM calls ran with: impl {got_views} model (viewR) {mviews}"
+        fin = {i: a for i, a in obs["attr"] if a != "absent"}
+        fin.update({i: a for i, a in (obs["kw"] or []) if a != "absent"})
+        if [[i, fin.get(i)] for i in uni] != m["store"]:
+            return f"object after the schedule: impl {[[i, fin.get(i)] for i in uni]} model {m['store']}"
+        if m["open"]:
+            return f"model: sections {m['open']} still open"
+        return None
     if k == "params":
         m = mouts[0]
         if m["calls"] != obs["calls"]:
@@ -1351,6 +1578,12 @@ def oracle(case, obs):
         # reference: the longest proper prefix for which events were stored for exactly that history (last writer wins)
         msgs = obs["pairs"]
         exp_ev, p0 = [], 0
+        if case.get("state"):
+            # an explicit state object carries the events of its own conversation: nothing stored for ANY history is used
+            exp = conv_tail(msgs)
+            if obs["events"] != exp:
+                return f"request with a state object: events should be the conversion of its messages {exp}, got {obs['events']} (events stored in the implicit cache were used)"
+            return None
         for p in range(len(msgs) - 1, 0, -1):
             ent = [e for e in case["cache"] if pairs(e["hist"]) == msgs[:p]]
             if ent:
@@ -1395,6 +1628,34 @@ def oracle(case, obs):
                 known = str(n) in case["attrs"] or case["kw"] is not None
                 if known and v != alt[str(n)]:
                     return f"call of manager {m} runs with {PNAMES[n]}={v!r} instead of its own {alt[str(n)]!r}"
+        if obs.get("pmode") == "repaired":
+            # every call runs with the configured values overridden by the open sections of its OWN task only
+            # (all parameters, not only the ones the task sets), whatever the sections of other tasks do
+            owner = params_owner(case)
+            cfg = {}
+            for i in range(len(PNAMES)):
+                cfg[i] = case["attrs"][str(i)] if str(i) in case["attrs"] else ((case["kw"] or {}).get(str(i), "absent"))
+            open_, vi = [], 0
+            for m, act in case["sched"]:
+                if act == "enter":
+                    open_.append(m)
+                elif act == "exit":
+                    open_.remove(m)
+                else:
+                    exp = dict(cfg)
+                    for o in open_:
+                        if owner[o] == owner[m]:
+                            for n, v in case["managers"][o].items():
+                                if str(n) in case["attrs"] or case["kw"] is not None:
+                                    exp[int(n)] = v
+                    got = dict((i, x) for i, x in obs["views"][vi][1])
+                    vi += 1
+                    if got != exp:
+                        bad = sorted(i for i in exp if got.get(i) != exp[i])
+                        return (f"call of manager {m} (task {owner[m]}) runs with " + ", ".join(f"{PNAMES[i]}={got.get(i)!r}" for i in bad)
+                                + " instead of " + ", ".join(f"{PNAMES[i]}={exp[i]!r}" for i in bad) + " (configured values + the sections of its own task)")
+            if obs.get("registry_left"):
+                return f"no section open, but the registry of open sections still has {obs['registry_left']} entries"
         for i, v in obs["attr"]:
             exp = case["attrs"].get(str(i), "absent")
             if v != exp:
@@ -1427,6 +1688,8 @@ def oracle(case, obs):
             for c in s["calls"]:
                 if c["temperature"] != exp_t:
                     return f"request {i}: LLM call ran with temperature {c['temperature']} instead of {exp_t}"
+                if c.get("temperature_end", exp_t) != exp_t:
+                    return f"request {i}: while its LLM call was in flight the temperature on the object it was made on became {c['temperature_end']} instead of {exp_t}"
             if s["out"] != ref["out"]:
                 return f"request {i}: result differs from the isolated replay: {json.dumps(s['out'])[:200]} vs {json.dumps(ref['out'])[:200]}"
             if [c["prompt"] for c in s["calls"]] != [c["prompt"] for c in ref["calls"]]:
@@ -1466,6 +1729,9 @@ def signature(case, obs, msg):
         # a look-alike entry (different history, same key as a proper prefix of the request) is in the cache
         msgs = obs.get("pairs") or []
         keys = obs.get("keys") or []
+        if case.get("state"):
+            hit = any(kp is not None and kp in keys for kp in (obs.get("pkeys") or []))
+            return "state-request-reads-implicit-cache" if hit and not obs.get("statefix") else None
         for p, kp in zip(range(1, len(msgs)), obs.get("pkeys") or []):
             for ent, kk in zip(case["cache"], keys):
                 if kp is not None and kk == kp and pairs(ent["hist"]) != msgs[:p]:
@@ -1487,16 +1753,18 @@ def signature(case, obs, msg):
                 return _evicted(case, obs, st)
         return None
     if k == "params":
-        if not _nested(case["sched"]):
+        if not _nested(case["sched"]) and obs.get("pmode") != "repaired":
             return "overlapping-llm-params-sections"
         if not all_present(case):
             return "absent-param-left-as-none"
         return None
     if k == "ctx":
+        if obs.get("pmode") == "repaired":
+            return None
         return "overlapping-llm-params-sections" if _sections_overlap(obs.get("sections", [])) else None
     if k == "conc":
-        if " alone: " in (msg or ""):
-            return None  # a single request cannot overlap with anything
+        if " alone: " in (msg or "") or obs.get("pmode") == "repaired":
+            return None  # a single request cannot overlap with anything; the repaired LLMParams has no excuse
         return "overlapping-llm-params-sections" if _sections_overlap(obs.get("sections", [])) else None
     return None
 
